@@ -86,6 +86,11 @@ func (u *Unit) VerifyFunc() {
 		env := u.entryEnv(fr, st)
 		env.assuming = true
 		env.fr = fr
+		env.keepUniversals = true
+		env.target = st
+		entrySnap := st.Clone()
+		env.st = entrySnap
+		env.old = entrySnap
 		for i, cl := range u.C.Clauses {
 			if cl.Kind != "requires" {
 				continue
@@ -387,10 +392,26 @@ func (u *Unit) assumeLoopInvariants(st *State, fr *Frame, li *loopInfo) {
 		st.Assume(g)
 	}
 	ct := u.contractFor(fr.Fn)
+	var snap *State
+	var snapFr *Frame
 	for _, i := range u.loopClauses(fr, li) {
 		cl := ct.Clauses[i]
 		env := u.invEnv(st, fr)
 		env.key = fmt.Sprintf("%s.inv%d", u.Name, i)
+		env.assuming = false
+		if _, isForall := cl.Expr.(EForall); isForall {
+			// proved for an arbitrary index, hence usable at any index: assumed at the
+			// skolems and remembered for instantiation at terms created later
+			if snap == nil {
+				snap = st.Clone()
+				snapFr = fr.cloneFor()
+			}
+			env.assuming = true
+			env.keepUniversals = true
+			env.target = st
+			env.st = snap
+			env.fr = snapFr
+		}
 		// the invariant is assumed at the same skolems it is proved at
 		g, err := env.EvalBool(cl.Expr)
 		if err != nil {
@@ -744,7 +765,11 @@ func (u *Unit) havocLoop(st *State, fr *Frame, li *loopInfo) {
 	})
 	for _, a := range cells {
 		if _, ok := fr.Cells[a]; ok {
-			fr.Cells[a] = u.FreshOfType(st, "lh_"+a.Comment, derefType(a.Type()))
+			nv := u.FreshOfType(st, "lh_"+a.Comment, derefType(a.Type()))
+			// whatever the variable refers to at the loop head was allocated before the
+			// allocations of the iteration that is about to be executed
+			u.clockFacts(nv, derefType(a.Type()), 0)
+			fr.Cells[a] = nv
 		}
 	}
 	// unleaked local heap variables written in the loop
@@ -756,7 +781,9 @@ func (u *Unit) havocLoop(st *State, fr *Frame, li *loopInfo) {
 	for _, a := range lh {
 		if v, ok := fr.Vals[a]; ok && v.Cell == nil {
 			el := derefType(a.Type())
-			u.store(st, v.T, el, u.FreshOfType(st, "lh_"+a.Comment, el))
+			nv := u.FreshOfType(st, "lh_"+a.Comment, el)
+			u.clockFacts(nv, el, 0)
+			u.store(st, v.T, el, nv)
 		}
 	}
 	var gks []string
